@@ -41,4 +41,41 @@ PROPS = {
         "components_stub": [],
         "assumptions": _TRUST,
     },
+    "C16": {
+        "world": "dsim.worlds.operator.OperatorWorld",
+        "tiers": {"quick": {"runs": 4000, "chunk": 50, "run_cap_s": 120, "wall_cap_s": 500},
+                  "thorough": {"runs": 200000, "chunk": 200, "run_cap_s": 300, "wall_cap_s": 2700}},
+        "rule": "one evaluation = one simulated run: a chain of 8-60 operations (+, -, *, scalar forms on either side, in-place "
+                "forms, unary minus, ==, array-form product/collapse/commutation) over a pool of <= 8 shared operator objects "
+                "(Tangelo and openfermion classes mixed, operands drawn with replacement, results reused), with provoked "
+                "documented refusals (attribute mismatch, cross-family, unsupported type); after every step every pool "
+                "object is compared with its immutable model value. Distinct = distinct pool signature (class, #terms, "
+                "attributes per object); non-trivial = run with >=3 steps touching >=2 objects or >=1 refusal.",
+        "probes": ["C16.same_object_both_sides", "C16.chain_length>=3", "C16.collapse_with_duplicates", "C16.commute_multi_term"],
+        "components_real": ["tangelo FermionOperator, QubitOperator, QubitHamiltonian, MultiformOperator, do_commute",
+                            "openfermion FermionOperator / QubitOperator (foreign operands)"],
+        "components_stub": [],
+        "assumptions": ["dsim/ref/opmodel.py (dict algebra, Pauli product table) is correct; it is independent of openfermion",
+                        "a clean batch is evidence over the sampled operation chains only, not a proof"],
+    },
+    "C18": {
+        "world": "dsim.worlds.histogram.HistogramWorld",
+        "tiers": {"quick": {"runs": 3000, "chunk": 40, "run_cap_s": 120, "wall_cap_s": 500},
+                  "thorough": {"runs": 100000, "chunk": 100, "run_cap_s": 300, "wall_cap_s": 2700}},
+        "rule": "one evaluation = one simulated run: 8-50 operations over a pool of <= 6 histograms (construct in both bit orders "
+                "and from probabilities, +, +=, aggregate 1-4 incl. the same object twice, remove_qubit_indices, post_select, "
+                "filter, resample through the RNG seam incl. extreme draw vectors, the dictionary functions, expectation values "
+                "with marginalisation) and group_qwc(seed in {None,int}, n_repeat 1-4) with the clique-cover RNG behind the seam; "
+                "Counter model compared after every step, grouping checked as exact partition + assembled == term-by-term value "
+                "from the same histograms. Distinct = pool signature (bit length, #keys, total/10 per histogram); non-trivial = "
+                "run with >=3 steps touching >=2 histograms or >=1 refusal/biased draw.",
+        "probes": ["C18.RandomState(None)_served", "C18.same_histogram_twice", "C18.marginalise_untouched_qubits", "C18.identity_term_grouped"],
+        "components_real": ["Histogram, aggregate_histograms, filter_hist", "post_select, strip_post_selection, split_frequency_dict, "
+                            "split_frequency_dict_for_last_n_digits", "get_resampled_frequencies + scipy.stats.rv_discrete",
+                            "group_qwc, map_measurements_qwc, exp_value_from_measurement_bases + openfermion clique cover"],
+        "components_stub": ["per-basis histograms fed to exp_value_from_measurement_bases are seeded synthetic histograms (the identity "
+                            "checked is exact for any histograms; real device sampling is C01/C02's subject)"],
+        "assumptions": ["Counter/dict model of dsim/worlds/histogram.py transcribes the documented meaning of each operation",
+                        "a clean batch is evidence over the sampled histories and draw sequences only, not a proof"],
+    },
 }
